@@ -81,6 +81,7 @@ SRC = {
     "C01": "TheFittest._replace, TheFittest._update (= Rec.update)",
     "C02": "TheFittest._update (= Rec.update; the record never decreases)",
     "C03": "TheFittest._update (stagnation counter), _termitation_check (= Cfg.stop), get_remains_calls (= Cfg.remains), the method-call skeleton of fit() (stops at the first consultation at which the rule holds; one evaluation per generation; one callback per generation after the first)",
+    "C05": "_get_fitness: the sign is applied exactly once to every objective value (= Cfg.fitOf), the evaluation counter advances by their number",
     "C06": "flip_mutation, binomialGA, one_point / two_point / uniform / uniform_proportional / uniform_rank / empty crossover (random draws as explicit streams)",
     "C07": "bounds_control (coordinate-wise clamp), binomial",
     "C08": "get_levels_tree_from_i (= levels, for every arity array)",
